@@ -1,6 +1,6 @@
 from __future__ import annotations
 
-from typing import TYPE_CHECKING
+from typing import TYPE_CHECKING, Any
 
 from ase.units import fs
 
@@ -48,6 +48,24 @@ class Verlet(BaseIntegrator):
         self.dt = dt * fs
         self.max_steps = max_steps
         self.apply_constraints = apply_constraints
+
+    def to_dict(self) -> dict[str, Any]:
+        """
+        Convert the `Verlet` object to a dictionary.
+
+        Returns
+        -------
+        dict[str, Any]
+            A dictionary representation of the `Verlet` object. The time step is stored in ASE units as an attribute so that it is restored exactly.
+        """
+        return {
+            **super().to_dict(),
+            "kwargs": {
+                "max_steps": self.max_steps,
+                "apply_constraints": self.apply_constraints,
+            },
+            "attributes": {"dt": self.dt},
+        }
 
     def integrate(self, context: DisplacementContext) -> None:
         """
